@@ -70,6 +70,10 @@ CHECKS = {
    text="Universal Coq theorems (Props/C19.v) about the emitted loop as a function of an ARBITRARY automaton, terminal table and text: the token stream it returns is the unique stream the maximal-munch relation allows (longest run from each start, owner of the state reached, lexical error with the exact lexeme and position when not accepting, WS/EOL/COMMENT skipped, unmatched whitespace discarded, end-of-input after the last token), and the two-half reader delivers exactly the file for every half size and every NUL-free file. Tie: five specifications are generated by the real CLI, compiled with a driver program and RUN on fragments, pairs, near-misses, multi-byte characters, random compositions, long lexemes, exact multiples of the half size and paddings across both 4096-byte boundaries; every output is compared with the Coq model evaluated on the dumped automaton and with an independent maximal-munch oracle.",
    note=TB + "The emitted reader's Retract/pending-lexeme bookkeeping is validated by the padding sweep, not proved; multi-byte decoding is exercised, not modelled. D21-D24 and D26 (five defects of the emitted lexer/reader) were found by this check and fixed.",
    tech="refinement: Gallina model of the emitted scanning loop proved against the maximal-munch specification; correspondence by compiling and running the emitted package"),
+ "C15": dict(cat="proof",
+   text="Every place where the order of evaluation is not fixed by the program text is listed from the current source by the translator (ranges over maps, traversals of the dependency's shuffling hash table, go/select statements, writes to package variables, time/random/environment calls). Each traversal is modelled in Coq as a fold over an ARBITRARY permutation of the keys and the theorems of Props/C15.v say the observable result does not depend on it: keys collected then sorted (canonical sort over a total order, for states and for strings), insertion into an ordered store, per-entry update, and the concrete models of the terminal map of Spec.DFA (closed form: the owned states in ascending order; conflicts in ascending state order), of SymbolTable.Verify's diagnostics and of Definitions(). The check matches every site with the theorem that covers its loop shape; the models are compared (content AND order) with spec.Parse / Spec.DFA under two delivery orders; each specification is re-run in-process (new map orders each time) and in fresh processes, comparing the bytes of every file, the messages without emoji and the status.",
+   note=TB + "Determinism of the dependency's ordered containers (red-black tables, automata) is trusted and exercised by the repeated runs; scheduling/OS-level determinism is runtime. D18, D19 were found and fixed; D19c (order of the dependency's grammar.Verify lines) is a known finding.",
+   tech="proof over permutation-parametrised models of every iteration site; site list regenerated from source (go/types); correspondence and repeated runs"),
 }
 
 ORDER = sorted(CHECKS)
